@@ -49,7 +49,7 @@ def registry : List Obj := [
   pureObj pureAbi,
   pureObj pureArRecv,
   mkObj ({} : JrSt) jrStep,
-  mkObj ([] : DlAll) dlStep
+  mkObj ([] : DlBuf) dlStep
 ]
 
 end ZV.Driver
